@@ -104,7 +104,7 @@ func runNearCapRound(r *mon.Run, idx int, rnd *rand.Rand) nearCapResult {
 			lb.DoDeadline(&rq, &rs, time.Now().Add(time.Second))
 		}()
 	}
-	// wait until all of them sit in the barrier (bounded: release anyway after 5 s)
+	// wait until all of them spin in the barrier (bounded: release anyway after 5 s)
 	tWait := time.Now()
 	for int(arrived.Load()) < k && time.Since(tWait) < 5*time.Second {
 		runtime.Gosched()
